@@ -17,3 +17,6 @@ package dagidx
 //@ iface VectorClock.GetMergedHighestBefore
 //@   pure
 //@   ensures result != nil
+//@ // forkless cause is a function of the two event IDs (IDs denote events uniquely, see C04 uniqueID)
+//@ iface ForklessCause.ForklessCause
+//@   pure
